@@ -116,6 +116,9 @@ class C14(scen.PairProp):
                 # (the change lands between places 0 and 1 of a row: both must be Wheatley's, because a
                 # wait that is already in progress is not re-timed by the change)
                 humans = sorted(rng.sample(range(3, N + 1), rng.randint(1, N - 2)))
+                during = rng.random() < 0.4
+                if during and N not in humans:
+                    humans = sorted(humans[:-1] + [N])     # (the late ringer is on the tenor: Wheatley's 1 and 2 follow)
                 ps = 180
                 ps2 = rng.choice([150, 200, 240])
                 rows = 10
@@ -124,12 +127,23 @@ class C14(scen.PairProp):
                 I = scen.interval(ps, N)
                 D = rng.choice([0.3, 1.0, 2.5]) * rng.uniform(0.9, 1.1)
                 r0 = rng.randint(1, 3)
-                hb = rng.choice(humans)
+                hb = N if during else rng.choice(humans)
                 k = math.floor((D + 0.001) / 0.01) + 1
                 delta_true = k * 0.01
                 delta = max(0, k - 2) * 0.01
                 r_sp = rng.randint(5, 7)
                 t_sp = t0 + 3 + I * scen.blow_index(N, gap, r_sp, 0) + 0.4 * I
+                cur_pos = scen.blow_index(N, gap, r_sp, 0) + 0.4
+                if during:
+                    # the peal speed is changed just after the hold-up has begun (the main thread is polling for the
+                    # late ringer): the bend is placed by the clock the rhythm had when the message arrived
+                    D = rng.choice([1.0, 2.5, 6.0]) * rng.uniform(0.9, 1.1)
+                    k = math.floor((D + 0.001) / 0.01) + 1
+                    delta_true = k * 0.01
+                    delta = max(0, k - 2) * 0.01
+                    bt0 = scen.blow_index(N, gap, r0, hb - 1)
+                    t_sp = t0 + 3 + I * bt0 + 0.015
+                    cur_pos = bt0 + 0.015 / I
                 I2 = scen.interval(ps2, N)
 
                 def band(shift_after, shift, late_at, late_by):
@@ -138,7 +152,7 @@ class C14(scen.PairProp):
                         for b in humans:
                             p = b - 1
                             bt = scen.blow_index(N, gap, r, p)
-                            cur = scen.blow_index(N, gap, r_sp, 0) + 0.4
+                            cur = cur_pos
                             if bt <= cur:
                                 t = t0 + 3 + I * bt
                             else:
@@ -161,9 +175,9 @@ class C14(scen.PairProp):
                                                 server_id=4, up_down_in=False),
                             "rhythm": scen.rhythm_cfg("wait", inertia=1.0, peal_speed=ps, gap=gap, initial_inertia=1.0)}
                 scA = mk(band(None, 0, None, 0), 0.0)
-                scB = mk(band((r0, hb - 1), delta, (r0, hb - 1), D), delta_true)
+                scB = mk(band((r0, hb - 1), delta, (r0, hb - 1), D), 0.0 if during else delta_true)
                 yield {"k": "pair", "scenarios": [scA, scB], "mode": "holdup", "D": D, "at": [r0, hb - 1], "t0": t0,
-                       "I": I, "N": N, "speed_change": True}
+                       "I": I, "N": N, "speed_change": True, "skip_first": during}
             elif r_mode < 0.75:
                 origin = 1000.0
                 t0 = origin + 0.25 + rng.random()
@@ -267,6 +281,10 @@ class C14(scen.PairProp):
         if cut is None or len(B) <= cut:
             return None
         deltas = [tb - ta for (ta, _, _), (tb, _, _) in zip(A[cut:], B[cut:])]
+        if req.get("skip_first"):
+            # (the wait that is in progress when the setting arrives is not re-timed: it is the wait for the next bell
+            # in the run without the hold-up, the hold-up itself in the other)
+            deltas = deltas[1:]
         if not deltas:
             return None
         d0 = deltas[0]
